@@ -9,6 +9,7 @@ import (
 	"strconv"
 	"strings"
 	"sync"
+	"time"
 
 	rmodel "github.com/metrico/qryn/reader/model"
 	rservice "github.com/metrico/qryn/reader/service"
@@ -347,5 +348,278 @@ func c13ModelTempo(r *h.Result, rng *h.Rng, n int) error {
 			r.Sample(map[string]any{"stream": "model-tempo", "request": q, "version": v, "sql": stmt})
 		}
 	}
-	return r.Compare("model-tempo", ops, impl, cases)
+	ans, err := h.Model(ops)
+	if err != nil {
+		return err
+	}
+	for i, a := range ans {
+		f := strings.Fields(a)
+		if len(f) != 4 || f[0] != impl[i] {
+			got := a
+			if len(f) > 0 {
+				got = f[0]
+			}
+			r.Disagree("model-tempo", ops[i], impl[i], got, cases[i])
+			continue
+		}
+		for k, name := range []string{"", "searchConfined(model plan)", "hypotheses of tempo_search_confined under lokiCfg", "text reads back as the plan"} {
+			if k > 0 && f[k] != "true" {
+				r.Disagree("model-tempo", ops[i]+" ["+name+"]", "true", f[k], cases[i])
+			}
+		}
+	}
+	return nil
+}
+
+// ---- judge-tempo: the REAL statement read back, judged and executed by the driver on a generated database
+
+type c13tSpan struct {
+	Trace string `json:"trace_id_hex"`
+	Span  string `json:"span_id_hex"`
+	Svc   string `json:"service"`
+	Name  string `json:"name"`
+	Ts    int64  `json:"timestamp_ns"`
+	Dur   int64  `json:"duration_ns"`
+	Where string `json:"where"` // position relative to the window
+	Match bool   `json:"matches_all_tags"`
+}
+type c13tAttr struct {
+	Date  string `json:"date"`
+	Key   string `json:"key"`
+	Val   string `json:"val"`
+	Trace string `json:"trace_id_hex"`
+	Span  string `json:"span_id_hex"`
+	Ts    int64  `json:"timestamp_ns"`
+	Dur   int64  `json:"duration"`
+}
+
+// a value for which the tag's condition holds (want) or fails, under the driver's oracle (match = substring)
+func c13tValFor(rng *h.Rng, t c13tTag, want bool) string {
+	other := "zz" + strconv.Itoa(rng.Intn(1000))
+	switch t.Op {
+	case "=":
+		if want {
+			return t.Val
+		}
+		return t.Val + other
+	case "!=":
+		if want {
+			return t.Val + other
+		}
+		return t.Val
+	case "=~":
+		if want {
+			return "p" + t.Val + "s"
+		}
+		if t.Val == "" {
+			return "" // the empty pattern is found everywhere: the condition cannot fail
+		}
+		return other
+	default: // !~
+		if want {
+			if t.Val == "" {
+				return ""
+			}
+			return other
+		}
+		return "p" + t.Val + "s"
+	}
+}
+
+func c13tDate(ns int64) string {
+	return time.Unix(0, ns).UTC().Format("2006-01-02")
+}
+
+// c13tGenDb: spans inside the window, exactly at its ends, and — the ones that matter — on the first and the last UTC day
+// of the window but outside of it, plus the neighbouring days; the attribute index repeats each span's timestamp
+func c13tGenDb(rng *h.Rng, q c13tReq) ([]c13tSpan, []c13tAttr) {
+	var spans []c13tSpan
+	var attrs []c13tAttr
+	from, to := q.From, q.To
+	if from <= 0 {
+		from = 1
+	}
+	if to <= from {
+		to = from + 1
+	}
+	dayFrom, dayTo := from/86400e9*86400e9, to/86400e9*86400e9
+	add := func(ts int64, where string) {
+		if ts < 0 {
+			return
+		}
+		s := c13tSpan{Trace: fmt.Sprintf("%032x", rng.U64()), Span: fmt.Sprintf("%016x", rng.U64()), Svc: h.Pick(rng, []string{"api", "db", "web"}),
+			Name: h.Pick(rng, []string{"GET /", "query", "render"}), Ts: ts, Dur: h.Pick(rng, []int64{1, 999999, 1000000, 2500000, 1500000000, 70000000000}),
+			Where: where, Match: !rng.Chance(15)}
+		spans = append(spans, s)
+		miss := -1
+		if !s.Match && len(q.Tags) > 0 {
+			miss = rng.Intn(len(q.Tags))
+		}
+		for i, t := range q.Tags {
+			attrs = append(attrs, c13tAttr{c13tDate(ts), t.Key, c13tValFor(rng, t, i != miss), s.Trace, s.Span, ts, s.Dur})
+		}
+		if rng.Chance(30) {
+			attrs = append(attrs, c13tAttr{c13tDate(ts), "other.key", "v", s.Trace, s.Span, ts, s.Dur})
+		}
+	}
+	between := func(a, b int64) int64 {
+		if b <= a {
+			return a
+		}
+		return a + int64(rng.U64()%uint64(b-a))
+	}
+	for k := 0; k < 3; k++ {
+		add(between(from+1, to), "inside")
+	}
+	add(from, "at-from(excluded)")
+	add(from+1, "from+1ns")
+	add(to, "at-to(included)")
+	add(to+1, "to+1ns")
+	if from > dayFrom {
+		add(between(dayFrom, from), "first-day-before-window")
+		add(dayFrom, "first-day-midnight")
+		add(from-1, "from-1ns")
+	}
+	if to < dayTo+86400e9-1 {
+		add(between(to+1, dayTo+86400e9), "last-day-after-window")
+		add(dayTo+86400e9-1, "last-day-last-ns")
+	}
+	add(dayFrom-1-int64(rng.Intn(80000))*1e9, "day-before")
+	add(dayTo+86400e9+int64(rng.Intn(80000))*1e9, "day-after")
+	return spans, attrs
+}
+
+func c13tDbSer(spans []c13tSpan, attrs []c13tAttr) (string, string) {
+	var ss, as []string
+	for _, s := range spans {
+		ss = append(ss, fmt.Sprintf("%s:%s:%s:%s:%d:%d", s.Trace, s.Span, hx(s.Svc), hx(s.Name), s.Ts, s.Dur))
+	}
+	for _, a := range attrs {
+		as = append(as, fmt.Sprintf("%s:%s:%s:%s:%s:%d:%d", hx(a.Date), hx(a.Key), hx(a.Val), a.Trace, a.Span, a.Ts, a.Dur))
+	}
+	j := func(x []string) string {
+		if len(x) == 0 {
+			return "-"
+		}
+		return strings.Join(x, ";")
+	}
+	return j(ss), j(as)
+}
+
+func c13JudgeTempo(r *h.Result, rng *h.Rng, n int) error {
+	r.Stream("judge-tempo: the statement the REAL TempoService.Search sent (every version state) is read back by the driver (lexed with the ClickHouse lexer model, parsed, re-rendered byte-equal or rejected), judged by searchConfined for the request window and EXECUTED (Tempo.searchRows over Sql.evalE) on a generated span table + attribute index with matching spans inside the window, at its ends ±1 ns, on its first / last UTC day but outside of it, and on the neighbouring days; oracle (Go): every returned span has from < timestamp_ns ≤ to")
+	type jc struct {
+		q     c13tReq
+		v     c13tVer
+		stmt  string
+		spans []c13tSpan
+		attrs []c13tAttr
+	}
+	var ops []string
+	var cs []jc
+	for i := 0; i < n; i++ {
+		q := c13tGenReq(rng)
+		if q.From <= 0 || q.To <= 0 {
+			// no window was asked for (the controller never passes such ends): nothing to judge
+			r.Count("judge-tempo:skipped-no-window")
+			continue
+		}
+		if rng.Chance(70) && !q.HasTags {
+			continue // mostly tag searches
+		}
+		v := c13tGenVer(rng, q)
+		stmt, _, _, err := c13tRun(q, v, nil)
+		if err != nil {
+			r.Count("judge-tempo:impl-error")
+			continue
+		}
+		spans, attrs := c13tGenDb(rng, q)
+		ss, as := c13tDbSer(spans, attrs)
+		ops = append(ops, fmt.Sprintf("c13tjudge %d %d %s %s %s", q.From, q.To, h.Hex([]byte(stmt)), ss, as))
+		cs = append(cs, jc{q, v, stmt, spans, attrs})
+	}
+	ans, err := h.Model(ops)
+	if err != nil {
+		return err
+	}
+	for i, a := range ans {
+		c := cs[i]
+		boundary := false
+		for _, s := range c.spans {
+			if s.Match && (s.Where == "first-day-before-window" || s.Where == "last-day-after-window" || s.Where == "first-day-midnight" || s.Where == "last-day-last-ns") {
+				boundary = true
+			}
+		}
+		r.Case(fmt.Sprintf("judge-tempo:%v:%v", c.q, c.v), boundary)
+		r.Count("judge-tempo:version=" + c.v.Kind)
+		f := strings.Fields(a)
+		if len(f) != 7 || f[0] != "parsed" {
+			r.Disagree("judge-tempo", truncS(ops[i], 300), "a statement of the shape GetTracesQuery / SQLIndexQuery build", a, map[string]any{"request": c.q, "version": c.v, "sql": c.stmt})
+			continue
+		}
+		replay := func(extra map[string]any) map[string]any {
+			m := map[string]any{"stream": "judge-tempo", "endpoint": "GET /api/search (TempoService.Search)", "request": c.q, "version_state": c.v,
+				"sql": c.stmt, "verdict": strings.Join(f[1:6], " "), "spans": c.spans, "attrs_index": c.attrs}
+			for k, x := range extra {
+				m[k] = x
+			}
+			return m
+		}
+		if f[1] != "true" {
+			what := "span-scan-unbounded"
+			if f[3] != "dates=true" {
+				what = "index-date-bounds"
+			} else if f[2] != "table=true" {
+				what = "table"
+			}
+			r.Violate("C13/unconfined/tempo-search/"+what,
+				fmt.Sprintf("legacy Tempo search, version state %q: the statement has a scan not confined to the window (%s)", c.v.Kind, strings.Join(f[2:6], " ")), replay(nil))
+		}
+		returned := 0
+		if f[6] != "-" {
+			for _, row := range strings.Split(f[6], ",") {
+				p := strings.Split(row, ":")
+				if len(p) != 3 {
+					continue
+				}
+				returned++
+				ts, _ := strconv.ParseInt(p[2], 10, 64)
+				if ts > c.q.From && ts <= c.q.To {
+					continue
+				}
+				where := "?"
+				for _, s := range c.spans {
+					if s.Trace == p[0] && s.Span == p[1] {
+						where = s.Where
+					}
+				}
+				// the same rows as the result set of the real handler chain: what the API answers
+				var api []string
+				_, _, res, _ := c13tRun(c.q, c.v, func(string) [][]driver.Value {
+					var rows [][]driver.Value
+					for _, rr := range strings.Split(f[6], ",") {
+						pp := strings.Split(rr, ":")
+						t, _ := strconv.ParseInt(pp[2], 10, 64)
+						rows = append(rows, []driver.Value{strings.ToUpper(pp[0]), "svc", "name", t, int64(1)})
+					}
+					return rows
+				})
+				for _, t := range res {
+					api = append(api, fmt.Sprintf("%s@%d", t.TraceID, t.StartTimeUnixNano))
+				}
+				r.Violate("C13/tempo-search/span-outside-window",
+					fmt.Sprintf("legacy Tempo search, version state %q: the statement returns span %s of trace %s with timestamp_ns %d (%s) for the window (%d, %d]",
+						c.v.Kind, p[1], p[0], ts, where, c.q.From, c.q.To),
+					replay(map[string]any{"returned_row": row, "where": where, "search_result_over_these_rows": api}))
+				break
+			}
+		}
+		if returned > 0 {
+			r.Count("judge-tempo:returned-spans")
+		}
+		if boundary {
+			r.Count("judge-tempo:matching-spans-on-boundary-days-outside-window")
+		}
+	}
+	return nil
 }
